@@ -295,7 +295,7 @@ _quick("C08", "C08_bufcut", "as C08_cut with 3 records and the log reader's buff
 
 _quick("C13", "C13_calllist", "CALL LIST_LOCK / LIST_LOCKED / LIST_WAIT through the real handlers with a protobuf request whose db_id is 0..3 or any 32-bit value from 200 up and whose lock_key has 0..16 bytes: a result, never a crash; SUCCED only for the database that exists", ["-witness", "20"])
 
-_quick("C18", "C18_adminwills", "a binary connection switches to the text protocol with ADMIN, registers 0..2 wills in text form (real TextServerProtocol.Process over a scripted stream) and the stream ends; after BinaryServerProtocol.Close each will has been executed exactly once, in order", ["-witness", "3"])
+_quick("C18", "C18_adminwills", "a binary connection switches to the text protocol with ADMIN, registers 0..1 wills in binary form before and 0..3 wills in text form after the switch (real TextServerProtocol.Process over a scripted stream) and the stream ends; after BinaryServerProtocol.Close each will has been executed exactly once, in order", ["-witness", "3"])
 
 _quick("C07", "C07_percent", "a hold with the share-of-expiry persistence flag (0x1000, 30 %) and E in {20, 140, 200, 600} s (delay 6 / 42 / 60 / 180 s), clock advanced second by second through the real sweeps to delay + 15 s: the hold has been persisted", ["-witness", "4"])
 
@@ -305,7 +305,7 @@ _quick("C03", "C03_textexpire", "a text connection (real TextServerProtocol hand
 
 _quick("C17", "C17_relock_long", "a hold with Rcount 3 parked in the long-expiry table at once (persist-immediately flag with E = 100 s, or unlimited expiry), re-locked 1..2 times in the same second (deadline unchanged) or a second later, every level given back, wheel swept: exact LCount / LRCount in every reply, counters back, no live manager", ["-witness", "6"])
 
-_quick("C01", "C01_slowmap", "a held key whose manager lives in the ordinary key map (hold parked in the long-expiry table; or two keys sharing one of 4 fast slots, the first released and optionally swept); a second request with Count 0 or 1 and Timeout 0: refused, holds unchanged, the holder's unlock accepted", ["-witness", "3"], reach=["end", "downgraded", "collision"])
+_quick("C01", "C01_slowmap", "a held key whose manager lives in the ordinary key map (hold parked in the long-expiry table; or two keys sharing one of 4 fast slots, the first released and optionally swept; or a neighbour key moved again while this key sits in their common slot); a second request with Count 0 or 1 and Timeout 0: refused, holds unchanged, the holder's unlock accepted", ["-witness", "3"], reach=["end", "downgraded", "collision", "neighbour"])
 
 _quick("C09", "C09_resync", "follower side of the resynchronisation handshake: the real ReplicationClient.InitSync against a scripted leader that answers ERR_NOT_FOUND to the follower's resume position, then the leader's position to the empty one, then the end marker of an empty transfer: the follower drops its stale hold, adopts the leader's position and consumes the transfer", ["-witness", "1"])
 
@@ -363,3 +363,5 @@ _quick("C10", "C10_wire", "a plain BinaryServerProtocol connection on a node in 
 _quick("C08", "C08_tail", "a log of a header and 1..3 records (symbolic bytes) cut at every byte from 12 on; Aof.LoadFileMaxAofLock (the log position a restarting node continues from) does not fail on a torn last record and returns the last complete record", ["-witness", "10"], reach=["end", "empty"])
 
 _quick("C20", "C20_longwait", "a long-wait bucket queue with a scaled-down geometry (base 1, 4 node slots, first node 2 entries; the server uses 4 / 64 / 256) through 1..6 cycles of: push 3 / 7 / 13 entries, remove all but the last 0..1, the real restructuringLongTimeOutQueue or ...ExpriedQueue, pop the rest; then Reset: contents as the model's, no index outside the node table", ["-witness", "6"])
+
+_quick("C02", "C03_cancel", "(also under C03) cancel-wait naming a queued request that was already answered (timed out) and still sits in the queue behind a live one: the cancel is refused, nobody is answered twice", ["-witness", "1"], reach=["end", "cancel-dead", "cancel-live"])
